@@ -234,7 +234,7 @@ func TestC05Restart(t *testing.T) {
 		if d.accepted["cfevesting"] > 0 {
 			cl = append(cl, "vesting_tx_accepted")
 		}
-		st.Case(restarts > 0 && d.accepted["cfevesting"] > 0, map[string]interface{}{"genesis": g, "history": d.log}, cl...)
+		st.Case(restarts > 0 && d.accepted["cfevesting"] > 0, map[string]interface{}{"genesis": g, "history": d.log}, append(cl, d.txShapeClasses()...)...)
 	})
 }
 
